@@ -5,6 +5,7 @@
 package c03
 
 import (
+	"bytes"
 	"errors"
 	"crypto/ecdsa"
 	"crypto/elliptic"
@@ -538,7 +539,40 @@ func MakeInterest(f []string) (string, *Built) {
 // returned them (including empty buffers), i.e. reading EncodedData.Wire back directly.
 var OwnSegs []int
 
+// LastWire: the Wire (list of segments) most recently handed to enc.NewWireReader by Reader, and the
+// segment lengths it had at that moment: constructing or using a reader must not rewrite the
+// caller's Wire (WireIntact).
+var LastWire enc.Wire
+var lastWireLens []int
+
+func keepWire(w enc.Wire) enc.ParseReader {
+	LastWire = w
+	lastWireLens = lastWireLens[:0]
+	for _, s := range w {
+		lastWireLens = append(lastWireLens, len(s))
+	}
+	return enc.NewWireReader(w)
+}
+
+// WireIntact reports whether the Wire handed to the last segmented reader still consists of the same
+// segments and still joins to b.
+func WireIntact(b []byte) bool {
+	if LastWire == nil {
+		return true
+	}
+	if len(LastWire) != len(lastWireLens) {
+		return false
+	}
+	for i, s := range LastWire {
+		if len(s) != lastWireLens[i] {
+			return false
+		}
+	}
+	return bytes.Equal(LastWire.Join(), b)
+}
+
 func Reader(b []byte, cuts string) enc.ParseReader {
+	LastWire = nil
 	if cuts == "c" {
 		return enc.NewBufferReader(b)
 	}
@@ -555,7 +589,7 @@ func Reader(b []byte, cuts string) enc.ParseReader {
 		if off < len(b) {
 			w = append(w, b[off:])
 		}
-		return enc.NewWireReader(w)
+		return keepWire(w)
 	}
 	var w enc.Wire
 	last := 0
@@ -570,13 +604,23 @@ func Reader(b []byte, cuts string) enc.ParseReader {
 		}
 	}
 	w = append(w, b[last:])
-	return enc.NewWireReader(w)
+	return keepWire(w)
 }
 
 // ReadAs decodes b with ReadData ('D'), ReadInterest ('I') or ReadPacket ('P').
 func ReadAs(kind byte, b []byte, cuts string) string {
 	b = append([]byte{}, b...)
 	r := Reader(b, cuts)
+	out := readAs(kind, r)
+	if !WireIntact(b) {
+		// the reader rewrote the list of segments it was given: the packet's own wire is no longer
+		// the packet (it is joined, sent or decoded again by its owner)
+		return "wire-changed " + out
+	}
+	return out
+}
+
+func readAs(kind byte, r enc.ParseReader) string {
 	switch kind {
 	case 'D':
 		d, cov, err := spec.Spec{}.ReadData(r)
